@@ -471,6 +471,19 @@ func (r *Reader) traverseNodeFiltered(n *html.Node, ctx *parseContext, elements 
 			return
 
 		case "li":
+			if !ctx.inList {
+				// An <li> without a <ul>/<ol> ancestor (malformed markup): treat
+				// it as a list of its own so that its content is not lost.
+				ctx.inList = true
+				ctx.listOrdered = false
+				ctx.listLevel = 0
+				ctx.listItems = make([]listItem, 0)
+				r.traverseNodeFiltered(n, ctx, elements)
+				ctx.flushList(elements)
+				ctx.inList = false
+				ctx.listItems = nil
+				return
+			}
 			if ctx.inList {
 				// Get direct text content, not nested lists
 				text := getDirectTextContent(n)
